@@ -10,7 +10,7 @@ CONSTANTS
   SelSet <- Sels3
   KBSet = {"nokb", "kb"}
   ResSet = {"byiss"}
-  AudNonceSet = {"none", "ok", "aud2", "n2", "onlyaud", "onlynonce"}
+  AudNonceSet = {"none", "ok", "aud2", "n2", "onlyaud", "onlynonce", "npre", "next", "apre", "aext"}
   ForgedSet = {"new"}
   Forged <- ForgedSel
   WantOther = TRUE
